@@ -258,11 +258,17 @@ func FreePathNode(p *PathNode) {
 
 // extend cap of a PathNode slice
 func guardPathNodeSlice(con *[]PathNode, l int) {
-	c := cap(*con) // Get the current capacity of the slice
+	c := cap(*con)
 	if l >= c {
-		tmp := make([]PathNode, len(*con), l+DefaultNodeSliceCap) // Create a new slice 'tmp'
-		copy(tmp, *con)                                           // Copy elements from the original slice to the new slice 'tmp'
-		*con = tmp                                                // Update the reference of the original slice to point to the new slice 'tmp'
+		// grow geometrically: with a constant increment, loading n children
+		// allocates and copies O(n^2) bytes in total
+		nc := l + DefaultNodeSliceCap
+		if nc < 2*c {
+			nc = 2 * c
+		}
+		tmp := make([]PathNode, len(*con), nc)
+		copy(tmp, *con)
+		*con = tmp
 	}
 }
 
